@@ -367,7 +367,7 @@ Lemma digs_fuel_S : forall f base grp v dc buf,
 Proof.
   induction f as [|f IH]; intros base grp v dc buf Hb Hv.
   - exfalso. change (Z.of_nat 0 - 1) with (-1) in Hv. rewrite Z.pow_neg_r in Hv by lia. lia.
-  - rewrite (digs_unfold (S f)). rewrite (digs_unfold f).
+  - rewrite (digs_unfold (S f) base grp v dc buf). rewrite (digs_unfold f base grp v dc buf).
     destruct (v >? 0) eqn:E; [|reflexivity].
     apply IH; [lia|].
     rewrite pow2_half in Hv. split; [apply Z.div_pos; lia|apply div_base_lt; lia].
@@ -446,4 +446,277 @@ Proof.
     + rewrite enc_loop_spec; [|auto|lia| |lia|cbn; lia].
       * replace (Z.abs x) with x by lia. reflexivity.
       * rewrite P64. lia.
+Qed.
+
+(* ------------------------------------------------------------------ *)
+(* numeral_value (numeral_text x) = x                                   *)
+(* ------------------------------------------------------------------ *)
+
+(* digits_val depends on the offset only through "is it 0" *)
+Lemma digits_val_off : forall base s off off' acc,
+  ((off =? 0) = (off' =? 0)) -> 0 <= off -> 0 <= off' ->
+  digits_val base off acc s = digits_val base off' acc s.
+Proof.
+  intros base s; induction s as [|c s IH]; intros off off' acc H H0 H0'; cbn [digits_val]; [reflexivity|].
+  destruct (c =? ch_us).
+  - rewrite H. destruct (off' =? 0); [reflexivity|]. apply IH; lia.
+  - destruct (digit_of c) as [d|]; [|reflexivity].
+    destruct (d >=? base); [reflexivity|]. apply IH; lia.
+Qed.
+
+Lemma digit_of_char : forall d, 0 <= d < 16 -> digit_of (digit_char d) = Some d.
+Proof.
+  intros d H. unfold digit_char, digit_of.
+  destruct (d <? 10) eqn:E.
+  - assert (E1 : ((48 <=? 48 + d) && (48 + d <=? 57)) = true) by lia. rewrite E1. f_equal; lia.
+  - assert (E1 : ((48 <=? 97 + (d - 10)) && (97 + (d - 10) <=? 57)) = false) by lia. rewrite E1.
+    assert (E2 : ((65 <=? 97 + (d - 10)) && (97 + (d - 10) <=? 70)) = false) by lia. rewrite E2.
+    assert (E3 : ((97 <=? 97 + (d - 10)) && (97 + (d - 10) <=? 102)) = true) by lia. rewrite E3.
+    f_equal; lia.
+Qed.
+
+Lemma digit_char_not_us : forall d, 0 <= d < 16 -> (digit_char d =? ch_us) = false.
+Proof. intros d H; unfold digit_char, ch_us; destruct (d <? 10) eqn:E; lia. Qed.
+
+Fixpoint comb (fuel : nat) (base acc v : Z) : Z :=
+  match fuel with
+  | O => acc
+  | S f => if v >? 0 then comb f base acc (v / base) * base + v mod base else acc
+  end.
+
+Lemma comb_zero : forall fuel base v,
+  2 <= base -> 0 <= v < 2 ^ (Z.of_nat fuel - 1) -> comb fuel base 0 v = v.
+Proof.
+  induction fuel as [|f IH]; intros base v Hb Hv.
+  - exfalso. change (Z.of_nat 0 - 1) with (-1) in Hv. rewrite Z.pow_neg_r in Hv by lia. lia.
+  - cbn [comb]. destruct (v >? 0) eqn:E; [|lia].
+    rewrite pow2_half in Hv.
+    rewrite IH; [|lia|split; [apply Z.div_pos; lia|apply div_base_lt; lia]].
+    pose proof (Z.div_mod v base ltac:(lia)). lia.
+Qed.
+
+Lemma digits_val_digs : forall fuel base grp v dc buf off acc,
+  base_ok base = true -> 0 <= v < 2 ^ (Z.of_nat fuel - 1) -> 0 <= off ->
+  digits_val base off acc (digs fuel base grp v dc buf) =
+  digits_val base (if v >? 0 then 1 else off) (comb fuel base acc v) buf.
+Proof.
+  induction fuel as [|f IH]; intros base grp v dc buf off acc Hb Hv Hoff.
+  - exfalso. change (Z.of_nat 0 - 1) with (-1) in Hv. rewrite Z.pow_neg_r in Hv by lia. lia.
+  - pose proof (base_ok_range _ Hb) as Hb'.
+    rewrite digs_unfold. cbn [comb].
+    destruct (v >? 0) eqn:E; [|reflexivity].
+    rewrite pow2_half in Hv.
+    rewrite IH; [|auto|split; [apply Z.div_pos; lia|apply div_base_lt; lia]|lia].
+    pose proof (mod_range v base ltac:(lia)) as Hm.
+    set (off1 := if v / base >? 0 then 1 else off).
+    assert (Hoff1 : 0 <= off1) by (unfold off1; destruct (v / base >? 0); lia).
+    cbn [digits_val].
+    rewrite digit_char_not_us by lia.
+    rewrite digit_of_char by lia.
+    assert (E2 : (v mod base >=? base) = false) by lia. rewrite E2.
+    destruct (negb (dc =? 0) && (dc mod grouping_of base =? 0) && grp).
+    + cbn [digits_val]. change (ch_us =? ch_us) with true. cbv iota.
+      assert (E3 : (off1 + 1 =? 0) = false) by lia. rewrite E3.
+      apply digits_val_off; lia.
+    + apply digits_val_off; lia.
+Qed.
+
+Definition numeral_char (base c : Z) : Prop :=
+  c = ch_us \/ exists d, 0 <= d < base /\ c = digit_char d.
+
+Lemma digs_chars : forall fuel base grp v dc buf,
+  2 <= base -> 0 <= v -> Forall (numeral_char base) buf ->
+  Forall (numeral_char base) (digs fuel base grp v dc buf).
+Proof.
+  induction fuel as [|f IH]; intros base grp v dc buf Hb Hv H; [exact H|].
+  rewrite digs_unfold. destruct (v >? 0) eqn:E; [|exact H].
+  apply IH; [lia|apply Z.div_pos; lia|].
+  constructor.
+  - right. exists (v mod base). split; [apply mod_range; lia|reflexivity].
+  - destruct (negb (dc =? 0) && (dc mod grouping_of base =? 0) && grp); [|exact H].
+    constructor; [left; reflexivity|exact H].
+Qed.
+
+Lemma digs_nonempty : forall fuel base grp v dc buf,
+  0 < v -> digs (S fuel) base grp v dc buf <> [].
+Proof.
+  intros fuel base grp v dc buf Hv. rewrite digs_unfold.
+  assert (E : (v >? 0) = true) by lia. rewrite E.
+  generalize (v / base) (dc + 1).
+  generalize (digit_char (v mod base)).
+  generalize (if negb (dc =? 0) && (dc mod grouping_of base =? 0) && grp then ch_us :: buf else buf).
+  induction fuel as [|f IH]; intros l c v' dc'; cbn [digs]; [discriminate|].
+  destruct (v' >? 0); [apply IH|discriminate].
+Qed.
+
+Lemma numeral_char_10 : forall c, numeral_char 10 c ->
+  c <> ch_minus /\ c <> ch_x /\ c <> ch_X /\ c <> ch_b /\ c <> ch_B.
+Proof.
+  intros c [->|[d [Hd ->]]]; unfold ch_us, ch_minus, ch_x, ch_X, ch_b, ch_B, digit_char.
+  - lia.
+  - destruct (d <? 10) eqn:E; lia.
+Qed.
+
+Definition body_of (base : Z) (grp : bool) (x : Z) : list Z :=
+  if x =? 0 then [ch_0] else digs enc_fuel base grp (Z.abs x) 0 [].
+
+Lemma body_chars : forall base grp x, 2 <= base -> Forall (numeral_char base) (body_of base grp x).
+Proof.
+  intros base grp x Hb. unfold body_of. destruct (x =? 0).
+  - constructor; [|constructor]. right. exists 0. split; [lia|reflexivity].
+  - apply digs_chars; [lia|lia|constructor].
+Qed.
+
+Lemma body_nonempty : forall base grp x, body_of base grp x <> [].
+Proof.
+  intros base grp x. unfold body_of. destruct (x =? 0) eqn:E; [discriminate|].
+  apply digs_nonempty. lia.
+Qed.
+
+Lemma body_value : forall base grp x off,
+  base_ok base = true -> Z.abs x < 18446744073709551616 -> 0 <= off ->
+  digits_val base off 0 (body_of base grp x) = Some (Z.abs x).
+Proof.
+  intros base grp x off Hb Hx Hoff. unfold body_of.
+  pose proof (base_ok_range _ Hb) as Hb'.
+  destruct (x =? 0) eqn:E.
+  - assert (x = 0) by lia. subst x. cbn [digits_val].
+    change (ch_0 =? ch_us) with false. cbv iota.
+    change (digit_of ch_0) with (Some 0).  cbv iota.
+    assert (E2 : (0 >=? base) = false) by lia. rewrite E2. reflexivity.
+  - assert (P64 : 2 ^ (Z.of_nat enc_fuel - 1) = 18446744073709551616) by reflexivity.
+    rewrite digits_val_digs; [|auto|lia|lia].
+    rewrite comb_zero; [|lia|lia]. reflexivity.
+Qed.
+
+Lemma numeral_value_text_lem : forall sg base grp x,
+  base_ok base = true -> Z.abs x < 18446744073709551616 -> (x < 0 -> sg = true) ->
+  numeral_value sg (numeral_text base grp x) = Some x.
+Proof.
+  intros sg base grp x Hb Hx Hsg.
+  pose proof (base_ok_cases _ Hb) as Hb'.
+  unfold numeral_text. fold (body_of base grp x).
+  pose proof (body_nonempty base grp x) as NE.
+  assert (Hb2 : 2 <= base) by lia.
+  pose proof (body_chars base grp x Hb2) as BC.
+  unfold numeral_value.
+  (* the text after the optional sign *)
+  set (after_sign := if base =? 16 then ch_0 :: ch_x :: body_of base grp x
+                     else if base =? 2 then ch_0 :: ch_b :: body_of base grp x
+                     else body_of base grp x).
+  assert (Hprefix : forall off, 0 <= off -> exists off2, 0 <= off2 /\
+            strip_prefix off after_sign = (base, off2, body_of base grp x)).
+  { intros off Hoff. unfold after_sign.
+    destruct Hb' as [->|[->| ->]]; cbn [Z.eqb Pos.eqb].
+    - exists (off + 2). split; [lia|reflexivity].
+    - exists off. split; [lia|].
+      unfold strip_prefix.
+      destruct (body_of 10 grp x) as [|c0 [|c1 r]] eqn:B; try reflexivity.
+      inversion BC as [|? ? _ BC1]; subst. inversion BC1 as [|? ? H1 _]; subst.
+      apply numeral_char_10 in H1. destruct H1 as (_ & H2 & H3 & H4 & H5).
+      destruct (c0 =? ch_0); [|reflexivity].
+      assert (E1 : ((c1 =? ch_x) || (c1 =? ch_X)) = false) by lia. rewrite E1.
+      assert (E2 : ((c1 =? ch_b) || (c1 =? ch_B)) = false) by lia. rewrite E2.
+      reflexivity.
+    - exists (off + 2). split; [lia|reflexivity]. }
+  assert (Hhead : x >= 0 -> strip_sign sg after_sign = (false, 0, after_sign)).
+  { intros _. unfold strip_sign, after_sign.
+    destruct Hb' as [->|[->| ->]]; cbn [Z.eqb Pos.eqb].
+    - change (ch_0 =? ch_minus) with false. rewrite andb_false_r. reflexivity.
+    - destruct (body_of 10 grp x) as [|c0 r] eqn:B; [reflexivity|].
+      inversion BC as [|? ? H1 _]; subst. apply numeral_char_10 in H1. destruct H1 as (H1 & _).
+      assert (E1 : (c0 =? ch_minus) = false) by lia. rewrite E1, andb_false_r. reflexivity.
+    - change (ch_0 =? ch_minus) with false. rewrite andb_false_r. reflexivity. }
+  unfold enc_finish. fold after_sign.
+  destruct (x <? 0) eqn:Eneg.
+  - rewrite (Hsg ltac:(lia)).
+    unfold strip_sign. change (ch_minus =? ch_minus) with true. cbn [andb].
+    destruct (Hprefix 1 ltac:(lia)) as [off2 [Hoff2 ->]].
+    destruct (body_of base grp x) as [|c r] eqn:B; [congruence|]. rewrite <- B.
+    rewrite body_value by (auto; lia). f_equal. lia.
+  - rewrite Hhead by lia.
+    destruct (Hprefix 0 ltac:(lia)) as [off2 [Hoff2 ->]].
+    destruct (body_of base grp x) as [|c r] eqn:B; [congruence|]. rewrite <- B.
+    rewrite body_value by (auto; lia). f_equal. lia.
+Qed.
+
+(* ------------------------------------------------------------------ *)
+(* round trip                                                           *)
+(* ------------------------------------------------------------------ *)
+Lemma fits_abs : forall t x, fits t x = true -> Z.abs x < 18446744073709551616.
+Proof.
+  intros t x H. apply fits_iff in H.
+  pose proof (ty_facts t) as (F1 & F2 & F3 & F4 & F5 & F6 & F7 & F8).
+  destruct (ity_signed t) eqn:S.
+  - destruct (F6 eq_refl). lia.
+  - specialize (F5 eq_refl). lia.
+Qed.
+
+Lemma fits_neg_signed : forall t x, fits t x = true -> x < 0 -> ity_signed t = true.
+Proof.
+  intros t x H Hx. apply fits_iff in H.
+  pose proof (ty_facts t) as (F1 & F2 & F3 & F4 & F5 & _).
+  destruct (ity_signed t); [reflexivity|]. specialize (F5 eq_refl). lia.
+Qed.
+
+(* decoding (as type t') the text written for a value of type t *)
+Lemma decode_numeral_text_lem : forall t' base grp x,
+  base_ok base = true -> fits t' x = true ->
+  decode_int t' (numeral_text base grp x) = Ok x.
+Proof.
+  intros t' base grp x Hb Hx.
+  rewrite decode_int_spec_lem.
+  rewrite numeral_value_text_lem; auto.
+  - rewrite Hx. reflexivity.
+  - eapply fits_abs; eauto.
+  - intros; eapply fits_neg_signed; eauto.
+Qed.
+
+Lemma int_roundtrip_lem : forall t x base grp,
+  base_ok base = true -> fits t x = true ->
+  exists text, encode_int t x base grp = Ok text /\ decode_int t text = Ok x.
+Proof.
+  intros t x base grp Hb Hx. exists (numeral_text base grp x). split.
+  - apply encode_int_spec_lem; auto.
+  - apply decode_numeral_text_lem; auto.
+Qed.
+
+(* a value written as type t and read as another type t' that contains it (enum text:
+   written with the underlying type, read as uint64_t / int64_t) *)
+Lemma int_roundtrip_cross_lem : forall t t' x base grp,
+  base_ok base = true -> fits t x = true -> fits t' x = true ->
+  exists text, encode_int t x base grp = Ok text /\ decode_int t' text = Ok x.
+Proof.
+  intros t t' x base grp Hb Hx Hx'. exists (numeral_text base grp x). split.
+  - apply encode_int_spec_lem; auto.
+  - apply decode_numeral_text_lem; auto.
+Qed.
+
+Lemma encode_total_lem : forall t x base grp,
+  encode_int t x base grp <> UB /\ encode_int t x base grp <> OutOfFuel.
+Proof.
+  intros t x base grp.
+  destruct (base_ok base) eqn:Hb; [destruct (fits t x) eqn:Hx|].
+  - rewrite encode_int_spec_lem by auto. split; discriminate.
+  - unfold encode_int. rewrite Hb, Hx. cbn [negb]. split; discriminate.
+  - unfold encode_int. rewrite Hb. cbn [negb]. split; discriminate.
+Qed.
+
+(* the text of a number does not depend on the C++ type it was written with *)
+Lemma encode_type_independent_lem : forall t t' x base grp,
+  base_ok base = true -> fits t x = true -> fits t' x = true ->
+  encode_int t x base grp = encode_int t' x base grp.
+Proof. intros; rewrite !encode_int_spec_lem by auto; reflexivity. Qed.
+
+(* encoding is injective: two values with the same text are equal *)
+Lemma encode_injective_lem : forall t x y base grp b' g' text,
+  base_ok base = true -> base_ok b' = true -> fits t x = true -> fits t y = true ->
+  encode_int t x base grp = Ok text -> encode_int t y b' g' = Ok text -> x = y.
+Proof.
+  intros t x y base grp b' g' text Hb Hb' Hx Hy E1 E2.
+  rewrite encode_int_spec_lem in E1 by auto. rewrite encode_int_spec_lem in E2 by auto.
+  inversion E1 as [T1]. inversion E2 as [T2].
+  pose proof (decode_numeral_text_lem t base grp x Hb Hx) as D1.
+  pose proof (decode_numeral_text_lem t b' g' y Hb' Hy) as D2.
+  rewrite T1 in D1. rewrite T2 in D2. congruence.
 Qed.
